@@ -285,7 +285,7 @@ func runC08(c *harness.Ctx, idx int) {
 		}
 		mu.Unlock()
 	}
-	var completed atomic.Int64
+	var completed, progress atomic.Int64 // progress: operations of the first-use goroutines only
 	start := make(chan struct{})
 	stop := make(chan struct{})
 	var first, all sync.WaitGroup
@@ -323,11 +323,13 @@ func runC08(c *harness.Ctx, idx int) {
 					note("first use (op %d) of fresh type %s by goroutine %d: %s", op, it.s.Describe(), g, m)
 				}
 				completed.Add(1)
+				progress.Add(1)
 				// and again, through another entry point
 				if m := it.use(op + 1 + gr.Intn(3)); m != "" {
 					note("second use of fresh type %s by goroutine %d: %s", it.s.Describe(), g, m)
 				}
 				completed.Add(1)
+				progress.Add(1)
 			}
 		}()
 	}
@@ -349,6 +351,7 @@ func runC08(c *harness.Ctx, idx int) {
 					note("invalid definition used concurrently (%s): %s: %s", e, sig, msg)
 				}
 				completed.Add(1)
+				progress.Add(1)
 			}
 		}()
 	}
@@ -376,7 +379,9 @@ func runC08(c *harness.Ctx, idx int) {
 	done := make(chan struct{})
 	go func() { first.Wait(); close(done) }()
 	// bounded-wait progress monitor
-	last := completed.Load()
+	// (measured on the first-use goroutines: the steady-state ones never touch the
+	// registration lock and would mask a leaked lock by completing operations for ever)
+	last := progress.Load()
 	idle := 0
 wait:
 	for {
@@ -384,9 +389,10 @@ wait:
 		case <-done:
 			break wait
 		case <-time.After(5 * time.Second):
-			now := completed.Load()
+			now := progress.Load()
 			if now == last {
 				idle++
+				c.Step("first-use goroutines made no progress for %d s", idle*5) // (also restarts the per-step CPU budget: the steady-state goroutines keep spinning)
 			} else {
 				idle = 0
 			}
@@ -394,13 +400,16 @@ wait:
 			if idle >= 24 {
 				buf := make([]byte, 1<<20)
 				buf = buf[:runtime.Stack(buf, true)]
-				c.Violation("no-progress", "C08/no-progress", "no operation completed for 120 s with %d goroutines still waiting (deadlock?)\n%s", G, clipStr(string(buf), 4000))
+				c.Violation("no-progress", "C08/no-progress", "no first-use operation completed for 120 s with %d goroutines in the episode (deadlock?)\n%s", G, clipStr(string(buf), 4000))
 				c.Abort()
 				break wait
 			}
 		}
 	}
 	close(stop)
+	if c.Aborted() {
+		return // the process is beyond repair: any further call into the library may block for ever
+	}
 	waited := make(chan struct{})
 	go func() { all.Wait(); close(waited) }()
 	select {
